@@ -103,6 +103,10 @@ def run(tier, selftest=False, only=None):
         n, it = (160, 150) if tier == "quick" else (2400, 400)
         jobs, models = c07.jobs_for(rng, n, ["gillespie", "gillespie", "tauleap"], it, chem_p=0.6)
         c07.trace_check(rep, jobs, models, "chemostat-heavy")
+    if sel("stats"):
+        # held entries are sources, sinks and reactants like any other, and jumps between two held entries are events that
+        # take their time: event frequencies and waiting times of the exact engine against the generator TLC computes
+        c07.gillespie_stats(rep, tier, seed, names={"chemostat-reservoir", "zero-order-chemostat"})
     if sel("leap"):
         rng = random.Random(seed * 977 + 35)
         n, sd, st = (40, 16, 30) if tier == "quick" else (300, 40, 40)
